@@ -243,6 +243,12 @@ Logs(n) ==
   /\ (\A t \in DOMAIN tx : ~Live(t)) => n = 0
   /\ UNCHANGED vars
 
+\* C11: audit from a fresh process once everything has ended: blob files no reachable node or item refers to,
+\* registry slots of unreachable nodes, transaction / priority log files - none may exist
+Audit(orphanBlobs, orphanHandles, logs) ==
+  /\ (\A t \in DOMAIN tx : ~Live(t)) => (orphanBlobs = 0 /\ orphanHandles = 0 /\ logs = 0)
+  /\ UNCHANGED vars
+
 \* infs.RemoveBtree: non transactional, complete
 RemoveStore(s) ==
   /\ \A t \in DOMAIN tx : Live(t) => s \notin tx[t].opened
